@@ -18,15 +18,15 @@ def unhexAux : List Char → List UInt8 → Option (List UInt8)
     | some x, some y => unhexAux r (UInt8.ofNat (x * 16 + y) :: acc)
     | _, _ => none
 
-/-- "-" is the empty byte string -/
+/-- "e" is the empty byte string ("-" is reserved for the empty list) -/
 def unhex (s : String) : Option (List UInt8) :=
-  if s == "-" then some [] else unhexAux s.toList []
+  if s == "e" then some [] else unhexAux s.toList []
 
 def hexDigit (n : Nat) : Char :=
   if n < 10 then Char.ofNat (n + '0'.toNat) else Char.ofNat (n - 10 + 'a'.toNat)
 
 def hex (bs : List UInt8) : String :=
-  if bs.isEmpty then "-" else
+  if bs.isEmpty then "e" else
   String.ofList (bs.flatMap fun b => [hexDigit (b.toNat / 16), hexDigit (b.toNat % 16)])
 
 /-- "-" is the empty list -/
